@@ -94,6 +94,9 @@ type Session struct {
 	msgMeta     *module.MsgMetadata
 	delivery    module.Delivery
 	deliveryErr error
+	// Accepted recipients: normalized address passed to the delivery ->
+	// addresses as they were specified in RCPT TO commands.
+	rcptOrig map[string][]string
 
 	log log.Logger
 }
@@ -154,6 +157,7 @@ func (s *Session) cleanSession() {
 	s.msgMeta = nil
 	s.delivery = nil
 	s.deliveryErr = nil
+	s.rcptOrig = nil
 	s.msgCtx = nil
 	s.msgTask.End()
 }
@@ -422,7 +426,14 @@ func (s *Session) rcpt(ctx context.Context, to string, opts *smtp.RcptOptions) e
 		}
 	}
 
-	return s.delivery.AddRcpt(ctx, cleanTo, *opts)
+	if err := s.delivery.AddRcpt(ctx, cleanTo, *opts); err != nil {
+		return err
+	}
+	if s.rcptOrig == nil {
+		s.rcptOrig = make(map[string][]string)
+	}
+	s.rcptOrig[cleanTo] = append(s.rcptOrig[cleanTo], to)
+	return nil
 }
 
 func (s *Session) Logout() error {
@@ -545,28 +556,44 @@ func (sw statusWrapper) SetStatus(rcpt string, err error) {
 // delayedStatuses keeps per-recipient statuses reported by the delivery until
 // the result of Commit is known: 'success' reported for a recipient means
 // nothing if the delivery is not committed afterwards.
+//
+// The delivery knows recipients in the normalized form (see Session.rcpt) and
+// several targets may report a status for the same recipient while go-smtp
+// wants exactly one status per RCPT TO command, under the address as it was
+// specified by the client. flush takes care of that.
 type delayedStatuses struct {
 	lock     sync.Mutex
-	rcpts    []string
-	statuses []error
+	order    []string
+	statuses map[string]error
 }
 
 func (ds *delayedStatuses) SetStatus(rcpt string, err error) {
 	ds.lock.Lock()
 	defer ds.lock.Unlock()
-	ds.rcpts = append(ds.rcpts, rcpt)
-	ds.statuses = append(ds.statuses, err)
+	if ds.statuses == nil {
+		ds.statuses = make(map[string]error)
+	}
+	prev, seen := ds.statuses[rcpt]
+	if !seen {
+		ds.order = append(ds.order, rcpt)
+	}
+	// The recipient is failed if any target failed it.
+	if !seen || prev == nil {
+		ds.statuses[rcpt] = err
+	}
 }
 
-func (ds *delayedStatuses) flush(to module.StatusCollector, commitErr error) {
+func (ds *delayedStatuses) flush(to module.StatusCollector, origRcpts map[string][]string, commitErr error) {
 	ds.lock.Lock()
 	defer ds.lock.Unlock()
-	for i, rcpt := range ds.rcpts {
-		err := ds.statuses[i]
+	for _, rcpt := range ds.order {
+		err := ds.statuses[rcpt]
 		if err == nil {
 			err = commitErr
 		}
-		to.SetStatus(rcpt, err)
+		for _, orig := range origRcpts[rcpt] {
+			to.SetStatus(orig, err)
+		}
 	}
 }
 
@@ -622,7 +649,7 @@ func (s *Session) LMTPData(r io.Reader, sc smtp.StatusCollector) error {
 	err = s.delivery.Commit(bodyCtx)
 	// Report per-recipient results only now: if Commit fails, recipients
 	// the delivery reported success for are not delivered either.
-	statuses.flush(statusWrapper{sc, s}, err)
+	statuses.flush(statusWrapper{sc, s}, s.rcptOrig, err)
 	if err != nil {
 		return wrapErr(err)
 	}
